@@ -12,6 +12,9 @@ pub const DIGITS: &str = "0129";
 pub const WHITES: &[char] = &[' ', '\t', '\n', '\r', '\u{c}', '\u{a0}', '\u{3000}', '\u{2003}'];
 pub const DELIMS: &str = "/,:;|\\";
 pub const NONWORD: &str = "-_.()!^$'\"";
+/// ASCII characters next to the letter / digit ranges and their bit-5 twins ('[' / '{', '@' / '`', '_' / DEL,
+/// control characters / digits): off-by-one range checks and "case bit" tricks meet them
+pub const ASCII_EDGE: &str = "@[]`{}|~\u{7f}\u{10}\u{11}\u{1}\u{1b}:/";
 /// Latin chars with / without an NFKD-ASCII base
 pub const LATIN: &str = "äéüÄÉñçłÆßøºª⁹²ḋḣẉẛſÅåǅǆ";
 pub const GREEK_CYR: &str = "σςΣαΑωΩжЖдДµ";
@@ -53,6 +56,7 @@ pub fn any_pool_char() -> BoxedStrategy<char> {
         8 => proptest::sample::select(WHITES.to_vec()),
         8 => pick(DELIMS),
         8 => pick(NONWORD),
+        3 => pick(ASCII_EDGE),
         8 => pick(LATIN),
         6 => pick(GREEK_CYR),
         3 => pick(CJK_ETC),
@@ -73,6 +77,7 @@ pub fn ascii_pool_char() -> BoxedStrategy<char> {
         6 => proptest::sample::select(vec![' ', '\t', '\n', '\r', '\u{c}']),
         8 => pick(DELIMS),
         8 => pick(NONWORD),
+        4 => pick(ASCII_EDGE),
     ]
     .boxed()
 }
@@ -83,6 +88,8 @@ pub enum PaletteKind {
     Mixed,
     /// contains at least one lower-case-but-folding character
     FoldingLower,
+    /// ASCII characters together with their bit-5 twins (c ^ 0x20)
+    AsciiTwins,
 }
 
 /// a palette: 2–6 characters; haystack characters are drawn from it
@@ -90,6 +97,15 @@ pub fn palette(kind: PaletteKind) -> BoxedStrategy<Vec<char>> {
     match kind {
         PaletteKind::Ascii => proptest::collection::vec(ascii_pool_char(), 2..=6).boxed(),
         PaletteKind::Mixed => proptest::collection::vec(any_pool_char(), 2..=6).boxed(),
+        PaletteKind::AsciiTwins => (proptest::collection::vec(prop_oneof![3 => pick(ASCII_EDGE), 1 => pick(ASCII_LOWER), 1 => pick(DIGITS)], 1..=3), proptest::collection::vec(ascii_pool_char(), 0..=2))
+            .prop_map(|(es, mut v)| {
+                for c in es {
+                    v.push(c);
+                    v.push(((c as u8) ^ 0x20) as char);
+                }
+                v
+            })
+            .boxed(),
         PaletteKind::FoldingLower => (proptest::sample::select(folding_lowercase().clone()), proptest::collection::vec(any_pool_char(), 1..=5))
             .prop_map(|(c, mut v)| {
                 v.insert(0, c);
@@ -102,9 +118,10 @@ pub fn palette(kind: PaletteKind) -> BoxedStrategy<Vec<char>> {
 }
 pub fn any_palette() -> BoxedStrategy<Vec<char>> {
     prop_oneof![
-        30 => palette(PaletteKind::Ascii),
-        40 => palette(PaletteKind::Mixed),
-        30 => palette(PaletteKind::FoldingLower),
+        27 => palette(PaletteKind::Ascii),
+        38 => palette(PaletteKind::Mixed),
+        27 => palette(PaletteKind::FoldingLower),
+        8 => palette(PaletteKind::AsciiTwins),
     ]
     .boxed()
 }
